@@ -184,12 +184,13 @@ class StandardTextLayout(TextLayout):
         nl: str | bytes = "\n" if isinstance(text, str) else b"\n"
         encoding = get_encoding()
         ellipsis_string = get_ellipsis_string(encoding)
-        ellipsis_width = _get_width(ellipsis_string)
+        ellipsis_char = ellipsis_string.encode(encoding)
+        # the columns of what is inserted: the encoded mark (a double-byte '…' takes two)
+        ellipsis_width = calc_width(ellipsis_char, 0, len(ellipsis_char))
         while width - 1 < ellipsis_width and ellipsis_string:
             ellipsis_string = ellipsis_string[:-1]
-            ellipsis_width = _get_width(ellipsis_string)
-
-        ellipsis_char = ellipsis_string.encode(encoding)
+            ellipsis_char = ellipsis_string.encode(encoding)
+            ellipsis_width = calc_width(ellipsis_char, 0, len(ellipsis_char))
 
         idx = 0
 
